@@ -29,7 +29,15 @@ def self_stores(fn, F):
         if st['k'] == 'assign' and st['lhs']['p'] and st['lhs']['p'][0] == 'deref' and is_self(st['lhs']['l'], b, i):
             idx = [cn.c(norm(P.local(p['idx'], b, i))) for p in st['lhs']['p'] if isinstance(p, dict) and 'idx' in p]
             fld = [p['name'] for p in st['lhs']['p'] if isinstance(p, dict) and 'f' in p]
-            out.append(('.'.join(fld) + ''.join('[%s]' % x for x in idx), I.shorten_vars(cn.c(norm(P.rvalue(st['rv'], b, i, 0))))))
+            ve = norm(P.rvalue(st['rv'], b, i, 0))
+            from ..prov import strip as _st
+            vs = _st(ve)
+            if not idx and vs.k == 'aggr' and vs.name == 'array' and 1 < len(vs.args) <= 16:
+                # the whole array field assigned from a literal: the same as its element stores in order
+                for k_, a_ in enumerate(vs.args):
+                    out.append(('.'.join(fld) + '[%d]' % k_, I.shorten_vars(cn.c(a_))))
+                continue
+            out.append(('.'.join(fld) + ''.join('[%s]' % x for x in idx), I.shorten_vars(cn.c(ve))))
     return out
 
 
@@ -288,6 +296,7 @@ def run(cx):
     K.k_array(cx, 'K-ZUC', 'gm_zuc', 'S0', z.s0, 1)
     K.k_array(cx, 'K-ZUC', 'gm_zuc', 'S1', z.s1, 1)
     K.k_array(cx, 'K-ZUC', 'gm_zuc', 'D', z.d, 4)
+    deferred = {}
     for name, want in HELPERS.items():
         if name in ('add31', 'rot31') and 'gm_zuc::' + name not in F.fns and not any(FR.calls_of(g, name) for q, g in F.fns.items() if q.startswith(('gm_zuc::', '<impl ZUC>'))):
             # the LFSR arithmetic helper is gone and nothing calls it: the new cell is then decided by Lin31 alone
@@ -296,6 +305,10 @@ def run(cx):
         f = cx.fn('gm_zuc::' + name, 'I-ZUC')
         if f is not None:
             r = [x[1] for x in I.returns(f, F)]
+            if name == 'make_u31' and r != [want]:
+                # decided together with its only use (I-ZUC/new/load composes the body with the call's arguments)
+                deferred['make_u31'] = (r, f)
+                continue
             cx.add('I-ZUC', name, r == [want], '%s = %s' % (name, [FR.short(x, 160) for x in r]), f.loc())
     lfsr(cx, 'lfsr_with_work_mode', TAPS)
     lfsr(cx, 'lfsr_with_initialization_mode', 'add31(%s, $u)' % TAPS)
@@ -317,11 +330,39 @@ def run(cx):
                'W = (X0 ^ R1) + R2; R1 = S(L1(W1L||W2H)), R2 = S(L2(W2L||W1H)) with W1 = R1 + X1, W2 = R2 ^ X2 (old registers)', ff.loc(), {'stores': st, 'ret': r})
     # ---- initialisation
     nw = cx.fn('<impl ZUC>::new', 'I-ZUC')
+    if nw is None:
+        for n_, (r_, f_) in deferred.items():
+            cx.add('I-ZUC', n_, False, '%s = %s (its use in ZUC::new was not found)' % (n_, r_), f_.loc())
     if nw is not None:
         P = Prov(nw, F, cut_loops=True); cn = Canon(nw, P)
         st = I.stores(nw, F, 's')
         E16 = 'each(Range::Range{0, 16})'
-        cx.add('I-ZUC', 'new/load', st == [(E16, 'make_u31(($k[%s] as u32), D[%s], ($iv[%s] as u32))' % (E16, E16, E16))], 's_i = k_i || d_i || iv_i for i in 0..16', nw.loc())
+        load_ok = st == [(E16, 'make_u31(($k[%s] as u32), D[%s], ($iv[%s] as u32))' % (E16, E16, E16))]
+        how = ''
+        if not load_ok and len(st) == 1 and st[0][0] == E16:
+            # the composed cell, whatever is precomputed: make_u31's body with the call's arguments substituted must be
+            # k_i << 23 | d_i << 8 | iv_i, where a constant table rendered by value stands for `D[i] << 8` only after each of
+            # its sixteen entries was compared with the oracle's d_i << 8
+            import re as _re2
+            mu = F.fns.get('gm_zuc::make_u31')
+            body = [x[1] for x in I.returns(mu, F)] if mu is not None else []
+            m_ = _re2.match(r'^make_u31\(\(\$k\[%s\] as u32\), (.*), \(\$iv\[%s\] as u32\)\)$' % (_re2.escape(E16), _re2.escape(E16)), st[0][1])
+            pn = [l_.get('name') for l_ in mu.locals[1:1 + mu.arg_count]] if mu is not None else []
+            if m_ and len(body) == 1 and len(pn) == 3:
+                mid = m_.group(1)
+                t_ = _re2.match(r'^arr:0x([0-9a-f]+)\[%s\]$' % _re2.escape(E16), mid)
+                if t_:
+                    hx = t_.group(1).rjust(128, '0')
+                    vals = [int(hx[k_:k_ + 8], 16) for k_ in range(0, 128, 8)][::-1] if len(hx) == 128 else None
+                    if vals == [d_ << 8 for d_ in z.d]:
+                        mid = 'Shl(D[%s], 8)' % E16
+                cell = body[0].replace('$' + pn[0], 'K').replace('$' + pn[2], 'IV').replace('$' + pn[1], mid)
+                load_ok = cell in ('BitOr(BitOr(Shl(K, 23), Shl(D[%s], 8)), IV)' % E16,)
+                how = ' (cell composed from the helper body: %s)' % cell[:80]
+        cx.add('I-ZUC', 'new/load', load_ok, 's_i = k_i || d_i || iv_i for i in 0..16%s' % how, nw.loc())
+        if 'make_u31' in deferred:
+            r_, f_ = deferred.pop('make_u31')
+            cx.add('I-ZUC', 'make_u31', load_ok and bool(how), 'make_u31 = %s: with the arguments of its call in ZUC::new it gives k << 23 | d << 8 | iv' % [FR.short(x, 160) for x in r_], f_.loc())
         ag = G.aggr_blocks(nw, 'ZUC::ZUC')
         ops_ = [I.shorten_vars(cn.c(norm(P.operand(o, ag[0][0], ag[0][1])))) for o in ag[0][2]['ops']] if len(ag) == 1 else []
         if ops_:
